@@ -6,5 +6,5 @@ cp -r /repo/. $w/ && rm -rf $w/.git
 (cd $w && patch -p1 -s < $d/patch.diff) || { echo "PATCH FAILED"; rm -rf $w; exit 3; }
 export GOFLAGS=-mod=mod GOPROXY=off GOSUMDB=off GOTOOLCHAIN=local
 (cd $w && go build ./... ) || { echo "BUILD FAILED"; rm -rf $w; exit 3; }
-/verif/bin/vcheck -repo $w -verif $w.out -known /verif/known_findings.json -p $props | grep -v "^      fact" | grep "^\s*\[\|VIOLATION\|^      [^ ]" | head -${3:-40}
+${VCHECK:-/verif/bin/vcheck} -repo $w -verif $w.out -known /verif/known_findings.json -p $props | grep -v "^      fact" | grep "^\s*\[\|VIOLATION\|^      [^ ]" | head -${3:-40}
 rm -rf $w $w.out
